@@ -433,7 +433,10 @@ def find_slots(ix):
             slots.append(Slot("keyword argument", f, l, u(l.target.elts[1]), u(l.target.elts[0]), colls(("kwargs",)), True))
         elif re.fullmatch(r"\w+\[['\"]options['\"]\]\.items\(\)", it) and isinstance(l.target, ast.Tuple) and len(l.target.elts) == 2:
             slots.append(Slot("metadata option", f, l, u(l.target.elts[1]), u(l.target.elts[0]), colls(("option_strings",)), True))
-    g = ix.func("program.list_to_blackbird")
+    g = ix.funcs.get("program.list_to_blackbird")
+    if g is None:
+        # no list formatter: a list value is then written by whatever arm of the argument / option dispatch catches it (kind List there)
+        return slots
     rebound = [n for n in ast.walk(g.node) if isinstance(n, (ast.Assign, ast.AugAssign)) and any(isinstance(x, ast.Name) and x.id == g.params[0] and isinstance(x.ctx, ast.Store) for x in ast.walk(n))]
     for l in walk_shallow(g.node):
         if isinstance(l, ast.For) and u(l.iter) == g.params[0] and not rebound:
@@ -610,7 +613,7 @@ def kind_coverage(rep, R, ix, M, extra_kinds=()):
                 key="converted|" + txt_[:50])
     if CONVERTED:
         names |= {"positional argument", "keyword argument"}
-    for need in ("positional argument", "keyword argument", "metadata option", "list element"):
+    for need in ("positional argument", "keyword argument", "metadata option") + (("list element",) if "program.list_to_blackbird" in ix.funcs else ()):
         if need not in names:
             raise Inconclusive("serialize: %s loop not recognised" % need)
     list_early_returns(rep, R, ix, [s for s in slots if s.name == "list element"], list(LOADER_SCALARS) + list(extra_kinds))
@@ -713,6 +716,8 @@ def structure(rep, R, ix, M):
     fn = f.node
     # separators: every join uses ", "
     for q in (SER, "program.list_to_blackbird", N2B):
+        if q == "program.list_to_blackbird" and q not in ix.funcs:
+            continue
         g = ix.func(q)
         for n in walk_shallow(g.node):
             if isinstance(n, ast.Call) and isinstance(n.func, ast.Attribute) and n.func.attr == "join" and isinstance(n.func.value, ast.Constant):
